@@ -26,11 +26,10 @@
    codes: 1 the run differs from RefSem's prediction; 2 the specification rejects the observation
    (wrong result, wrong sequence of callback invocations, input changed, the script did not receive
    the table the host built, crash); 3 the case is outside the checker's precondition (malformed
-   log, not well-scoped, semantics out of fuel); formerly 10 (now plain 2) for a case of the class [unrooted]:
-   the input was built by Vm::insert_value under a memory limit small enough for collections
-   (known finding F-1 in known_findings.json: insert_value holds the keys and nested values it
-   creates unrooted while it allocates the next ones, so the table handed to the script can miss
-   entries or hold freed keys - the library is then applied to a corrupt table). *)
+   log, not well-scoped, semantics out of fuel).  The flag [unrooted] marks inputs built by
+   Vm::insert_value under a memory limit small enough for collections: the class of finding F-1
+   (insert_value held what it created unrooted; repaired by a1ac5c5) - kept as information only,
+   such cases are judged like all others. *)
 From Coq Require Import Floats.SpecFloat.
 From Cao Require Export CheckUtil CardAst RefSem RefScope C01Check StdSpec.
 From Cao Require Import Value.
